@@ -105,6 +105,30 @@ class Ctx:
         shutil.rmtree(d, ignore_errors=True)
         return drift, bad
 
+    # ---- TLC judges real records (drifted ones, or all of them in audit mode) with the Decl predicates
+    def judge(self, module, ndjson, prop=None, what="Decl predicate false on the real result"):
+        n = sum(1 for _ in open(ndjson))
+        if n == 0: return 0
+        cfg = ("judge.cfg", "SPECIFICATION Spec\nCONSTANTS\n  OffsMod = 65536\n  JudgeFile = \"judge.ndjson\"\n  Prop = \"%s\"\nINVARIANT Report\nCHECK_DEADLOCK FALSE\n" % (prop or self.pid))
+        res = vlib.run_tlc(module, cfg, workers=1, extra_files=[(ndjson, "judge.ndjson")], timeout=1200)
+        out = re.sub(r"\s+", " ", open(res["out"], errors="replace").read())
+        shutil.rmtree(res["dir"], ignore_errors=True)
+        verd = re.findall(r'<<\s*"JUDGE",\s*(\d+),\s*(TRUE|FALSE)\s*>>', out)
+        if not res["ok"] or len(verd) != n:
+            raise Machinery("judge %s did not complete (%d/%d verdicts): %s" % (module, len(verd), n, res["tail"][-1200:]))
+        self.states += res["distinct"]; self.transitions += res["generated"]
+        lines = open(ndjson).read().splitlines()
+        nbad = 0
+        for idx, ok in verd:
+            if ok == "FALSE":
+                nbad += 1
+                rec = json.loads(lines[int(idx) - 1])
+                s_ = rec.get("args", {}).get("s", [])
+                self.violation(dict(property=self.pid, what=what, cfg={}, input=s_, text="%s %r %s" % (rec.get("fn"), bytes(s_), json.dumps({k: v for k, v in rec.get("args", {}).items() if k != "s"})),
+                                    sig="judge:" + str(rec.get("fn")), detail=json.dumps(rec.get("res"))[:1500], rec=rec))
+        self.extra.setdefault("judged", []).append(dict(module=module, records=n, failed=nbad, tlc_wall_s=round(res["wall"], 1)))
+        return nbad
+
     # ---- violations / known findings
     def violation(self, v):
         for k in self.kf.get("known", []):
@@ -116,6 +140,11 @@ class Ctx:
             if "flags_mask" in m and not (int(c.get("flags", 0)) & m["flags_mask"]): continue
             if "detail_re" in m and not re.search(m["detail_re"], v.get("detail", ""), re.S): continue
             if "text_re" in m and not re.search(m["text_re"], v.get("text", ""), re.S): continue
+            if "expr" in m:
+                try:
+                    if not eval(m["expr"], {}, dict(v=v)): continue
+                except Exception:
+                    continue
             if k["id"] not in [x["id"] for x in self.known]: self.known.append(k)
             k.setdefault("_n", 0); k["_n"] += 1
             return
@@ -503,4 +532,110 @@ def plan_C10(ctx):
     ctx.nontrivial = ctx.records
     ctx.need("digit strings x positions executed", ctx.records, 2000)
 
-PLANS = dict(selftest=selftest, C10=plan_C10, C16=plan_C16, C01=plan_C01, C02=plan_C02, C03=plan_C03, C04=plan_C04, C06=plan_C06, C07=plan_C07, C11=plan_C11, C12=plan_C12, C13=plan_C13)
+def witnesses(ctx, recs, module="Judge_URI"):
+    """fixed witness inputs of the known findings: executed on the real code and judged on every run, so that each listed
+    finding is re-confirmed (KNOWN-FINDING line) or noticed to be gone"""
+    d = vlib.scratch("wit"); inp = os.path.join(d, "recs.out")
+    with open(inp, "w") as f:
+        for r in recs: f.write(json.dumps(json.dumps(dict(r, res={}))) + "\n")
+    dr = os.path.join(d, "all.ndjson")
+    vlib.run_job(dict(mode="replay", inputs_file=inp, extra=dict(drift_out=dr, dump_all=True)), "witness")
+    n = ctx.judge(module, dr)
+    shutil.rmtree(d, ignore_errors=True)
+    return n
+
+def uri_judge(ctx, drift_file):
+    ctx.judge("Judge_URI", drift_file)
+
+def audit_sample(ctx, tlc_out, every, module="Judge_URI"):
+    """audit mode: have TLC judge a sample of ALL real results (not only drifted ones): the Decl predicates are evaluated on
+    real values even where the model agrees -- this is what shows that the predicates themselves raise no false alarm."""
+    d = vlib.scratch("audit"); inp = os.path.join(d, "recs.out"); k = 0
+    with open(inp, "w") as f:
+        for line in open(tlc_out, errors="replace"):
+            if line.startswith('"{'):
+                k += 1
+                if k % every == 0: f.write(line)
+    dr = os.path.join(d, "all.ndjson")
+    vlib.run_job(dict(mode="replay", inputs_file=inp, extra=dict(drift_out=dr, dump_all=True)), "audit")
+    n = ctx.judge(module, dr)
+    shutil.rmtree(d, ignore_errors=True)
+    return n
+
+def plan_C14(ctx):
+    ctx.extra["rule"] = ("TLC: every byte string over ': @ ; ? & = [ ] . a 1' up to MaxLen atoms after each scheme prefix (sip: SIP: sIp: sips: "
+        "SIPS: tel: ...); the Decl predicate Lossless (URIProps.tla: ordered, disjoint components, each gap exactly the required delimiter, "
+        "union = the input, ';' '?' before '@' in the user, brackets kept, tel: number as user) is an invariant on the transcription "
+        "(SipURI.tla); every explored input is executed on the real ParseURI (drift = model != code). Real results that differ from the "
+        "model, and a sample of all real results, are judged by TLC with the same predicate (Judge_URI.tla). Known, outside the "
+        "quantifier: byte 0x1a accepted as the scheme colon.")
+    runs = [("MC_URI_core.cfg", 1), ("MC_URI_schemes.cfg", 1)] if ctx.quick else [("MC_URI_core.cfg", 1), ("MC_URI_schemes.cfg", 1), ("MC_URI_sip.cfg", 1), ("MC_URI_sips.cfg", 1), ("MC_URI_tel.cfg", 1), ("MC_URI_port.cfg", 1)]
+    for cfg, _ in runs:
+        r = vlib.run_tlc("MC_URI", cfg, workers=8, timeout=1500)
+        if not r["ok"]: raise Machinery("TLC failed on MC_URI/%s:\n%s" % (cfg, r["tail"]))
+        ctx.states += r["distinct"]; ctx.transitions += r["generated"]
+        drift_out = os.path.join(r["dir"], "drift.ndjson")
+        rp = vlib.replay(r["out"], drift_out=drift_out)
+        x = rp["extra"]; ctx.records += x["records"]; ctx.impl_traces += x["records"]; ctx.drift += x["drift"]
+        ctx.tlc_runs.append(dict(module="MC_URI", cfg=cfg, states=r["distinct"], records=x["records"], drift=x["drift"], tlc_wall_s=round(r["wall"], 1)))
+        for s_ in (rp.get("samples") or [])[:2]:
+            if len(ctx.samples) < 12: ctx.samples.append(dict(source="TLC MC_URI/%s replayed on the code" % cfg, case=s_))
+        if x["drift"]:
+            ctx.notes.append("drift on %d records of %s, judged by TLC: %s" % (x["drift"], cfg, (x.get("drift_samples") or [""])[0][:300]))
+            ctx.judge("Judge_URI", drift_out)
+        if cfg == "MC_URI_core.cfg": audit_sample(ctx, r["out"], 97 if ctx.quick else 23)
+        shutil.rmtree(r["dir"], ignore_errors=True)
+    ctx.nontrivial = ctx.records
+    ctx.need("URIs executed on the real parser", ctx.records, 100000)
+
+def plan_C18(ctx):
+    ctx.extra["rule"] = ("TLC: for every accepted URI over the delimiter alphabet (<= MaxLen atoms) x target offsets {0,1,300,65535-len} x spans "
+        "0..len+2: RelocateOk (URIProps.tla) is an invariant on the transcription of AdjustOffs and the views; a second configuration with "
+        "OffsMod = 32 explores every target offset up to the wrap boundary on the model; every (URI, offset, span) is executed on the real "
+        "AdjustOffs / Short / Long / Flat / Truncate (drift); drifted and sampled real results are judged by TLC (Judge_URI.tla: "
+        "RelocateReal, ViewsReal). Known finding: views of a tel: URI with a password.")
+    r = vlib.run_tlc("MC_URIAdj", "MC_URIAdj.cfg", workers=8, timeout=1500)
+    if not r["ok"]: raise Machinery("TLC failed on MC_URIAdj:\n%s" % r["tail"])
+    ctx.states += r["distinct"]; ctx.transitions += r["generated"]
+    drift_out = os.path.join(r["dir"], "drift.ndjson")
+    rp = vlib.replay(r["out"], drift_out=drift_out)
+    x = rp["extra"]; ctx.records += x["records"]; ctx.impl_traces += x["records"]; ctx.drift += x["drift"]
+    ctx.tlc_runs.append(dict(module="MC_URIAdj", cfg="MC_URIAdj.cfg", states=r["distinct"], records=x["records"], drift=x["drift"], tlc_wall_s=round(r["wall"], 1)))
+    if x["drift"]: ctx.judge("Judge_URI", drift_out)
+    audit_sample(ctx, r["out"], 499 if ctx.quick else 97)
+    shutil.rmtree(r["dir"], ignore_errors=True)
+    r2 = vlib.run_tlc("MC_URIAdj", "MC_URIAdj_wrap32.cfg", workers=8, timeout=1500)
+    if not r2["ok"]: raise Machinery("TLC failed on MC_URIAdj_wrap32:\n%s" % r2["tail"])
+    ctx.states += r2["distinct"]; ctx.transitions += r2["generated"]
+    ctx.tlc_runs.append(dict(module="MC_URIAdj", cfg="MC_URIAdj_wrap32.cfg (model only, OffsMod=32)", states=r2["distinct"], records=0, drift=0, tlc_wall_s=round(r2["wall"], 1)))
+    shutil.rmtree(r2["dir"], ignore_errors=True)
+    # views of every accepted URI (ParseURI records carry Short/Long/Flat/Trunc)
+    r3 = vlib.run_tlc("MC_URI", "MC_URI_schemes.cfg", workers=8, timeout=1500)
+    if not r3["ok"]: raise Machinery("TLC failed on MC_URI_schemes:\n%s" % r3["tail"])
+    ctx.states += r3["distinct"]; ctx.transitions += r3["generated"]
+    d3 = os.path.join(r3["dir"], "drift.ndjson")
+    rp3 = vlib.replay(r3["out"], drift_out=d3)
+    ctx.records += rp3["extra"]["records"]; ctx.impl_traces += rp3["extra"]["records"]; ctx.drift += rp3["extra"]["drift"]
+    if rp3["extra"]["drift"]: ctx.judge("Judge_URI", d3)
+    audit_sample(ctx, r3["out"], 211 if ctx.quick else 41)
+    shutil.rmtree(r3["dir"], ignore_errors=True)
+    witnesses(ctx, [dict(fn="ParseURI", args=dict(s=B(t))) for t in ("tel:a:b@c", "tel:+1:x@h;p", "TEL:a:b@c?h=1")])
+    for s_ in (rp.get("samples") or [])[:3]:
+        if len(ctx.samples) < 12: ctx.samples.append(dict(source="TLC MC_URIAdj replayed on the code", case=s_))
+    ctx.nontrivial = ctx.records
+    ctx.need("relocations / views executed on the real code", ctx.records, 100000)
+
+def plan_C09(ctx):
+    ctx.extra["rule"] = ("Decl by construction (GenNameAddr.tla): values built from parts -- display name (none / token(s) / quoted with escapes and "
+        "embedded , ; < >), <uri> or bare uri, 0..3 parameters (tag expires q lr other, any case; missing / empty / token / number / quoted "
+        "values), LWS (none SP HT fold) around ';' '=' ',' -- together with the intended URI, V, Params, Tag, Star, LR, HasExpires/Expires, Q, "
+        "Type, and for lists N, LastHVal, More, stored prefix, first/last, min/max expires; through ParseNameAddrPVal (From To Contact PAI), "
+        "ParseAllContactValues (capacities 0 1 2 4), ParseAllPAIValues, ParseHeaders and ParseSIPMsg. Keys the statement does not "
+        "determine (Name with LWS before '<', duplicate parameter names ...) are not compared.")
+    slices = ["single", "lists", "inmsg", "listsws"] + ([] if ctx.quick else ["lws", "params3"])
+    for sl in slices:
+        ctx.tlc("MC_GenNameAddr", "MC_GenNameAddr_%s.cfg" % sl, workers=8, min_records=1000)
+    ctx.nontrivial = ctx.records
+    ctx.need("generated name-addr values / lists executed on the real parsers", ctx.records, 50000)
+
+PLANS = dict(C09=plan_C09, C14=plan_C14, C18=plan_C18, selftest=selftest, C10=plan_C10, C16=plan_C16, C01=plan_C01, C02=plan_C02, C03=plan_C03, C04=plan_C04, C06=plan_C06, C07=plan_C07, C11=plan_C11, C12=plan_C12, C13=plan_C13)
